@@ -12,6 +12,13 @@ SIZES = [0, 1, 2, 7, 100, 511, 512, 513, 4096, 5000, 65536, 70000]
 
 def gen(tier, rnd):
     L = ['wr F d5,m40 -', 'wr FFL m10,d7,m30 -', 'wr FL m40,m60 -', 'wr LFL m10,f700,m30 5,B,100', 'wr L m1000 300,B,200', 'wr F m100,f300,m50 10,B,B,50', 'wr L m10 -', 'wr L m0 -', 'wr L m5,m0,m5 1,B,1']
+    # bursts: many small writes queued before the loop gets back to its queue (a drain that takes a bounded number of entries per
+    # wake-up strands the rest: the eventfd notification is consumed by the first pop)
+    for k in ((64, 65, 66, 100, 129, 300) if tier == 'quick' else (63, 64, 65, 66, 100, 127, 128, 129, 200, 257, 500, 1000)):
+        ws = ','.join('m%d' % (1 + i % 7) for i in range(k))
+        L.append('wr L %s -' % ws); L.append('wr F %s -' % ws)
+        L.append('wr %s %s -' % (''.join('LF'[(i // 3) % 2] for i in range(k)), ws))
+        L.append('wr L %s 50,B,100,B,1000' % ws)
     N = 250 if tier == 'quick' else 5000
     for _ in range(N):
         k = rnd.choice([1, 1, 2, 3, 4, 6])
@@ -61,7 +68,7 @@ def classify(ln, out):
     w = ln.split()
     return (w[1], tuple(t[0] + str(int(t[1:]).bit_length()) for t in w[2].split(',')), tuple('B' if x == 'B' else 'c' for x in w[3].split(',')) if w[3] != '-' else ())
 
-RULE = ('1..6 writes per connection (memory and file buffers, sizes 0..70000 incl. buffer-size boundaries; optionally with writes addressed to a peer that is already gone queued in front of or between them) issued from the loop thread, from a foreign thread, or alternately from both (each foreign issue joined before the next write) through Transport::asyncWrite on a live endpoint, '
+RULE = ('1..6 writes per connection, and bursts of 64..300 (thorough to 1000) small writes queued in one go from the loop thread / a foreign thread / both, (memory and file buffers, sizes 0..70000 incl. buffer-size boundaries; optionally with writes addressed to a peer that is already gone queued in front of or between them) issued from the loop thread, from a foreign thread, or alternately from both (each foreign issue joined before the next write) through Transport::asyncWrite on a live endpoint, '
         'with the socket write calls (send/sendfile) scripted through the write hook: any sequence of would-block results and caps of 1..100000 bytes; the bytes read by the peer are compared with the concatenation '
         'of the buffers, each promise\'s settlement count and value are recorded; the sequence of write calls (offered, accepted) is compared with the model. non-trivial = distinct (thread, write kinds/size classes, outcome pattern)')
 ASSUME = ['the peer stays connected and reads', 'loopback socket buffers are larger than the sizes used, so the only short writes / would-block results are the scripted ones',
